@@ -183,24 +183,58 @@ func opBgKsVerify(args []string) string {
 	return ErrClass(ks.Verify(UnH(args[10])), ksErrTable)
 }
 
-// set_signature keyspec pubkind a b signalgo hashalgo msg seed: KeySignature.SetSignature with a real key;
-// the observation leaves out the signature bytes (they are the signer's, not the library's)
+var setSigErrTable = [][2]string{
+	{"unable to set public key", "4"},
+	{"unable to construct the signature data", "5"},
+	{"unable to set the signature", "4"},
+}
+
+// set_signature container keyspec pubkind a b signalgo hashalgo msg seed  prior-signature(5) prior-PubKeyHashAlg:
+// SetSignature with a real key on a structure that already holds the given signature fields
+// (container: sig = cbnt.Signature, ks = cbnt.KeySignature, bpm = the PMSE element of a boot
+// policy manifest, km = the key manifest). The observation leaves out the signature bytes
+// (they are the signer's, not the library's).
 func opSetSignature(args []string) string {
-	priv := parsePriv(args[0])
-	cbnt.RandReader = rngReader{NewRng(UnN(args[7]))}
-	var ks cbnt.KeySignature
-	ks.Version, ks.Key.Version, ks.Signature.Version = 0x55, 0x55, 0x55
-	ks.Signature.KeySize, ks.Signature.SigScheme = 0x5555, 0x55
-	err := ks.SetSignature(cbnt.Algorithm(UnN(args[4])), cbnt.Algorithm(UnN(args[5])), priv, exact(UnH(args[6])))
-	if err != nil {
-		return ErrClass(err, [][2]string{
-			{"unable to set public key", "4"},
-			{"unable to construct the signature data", "5"},
-			{"unable to set the signature", "4"},
-		})
+	priv := parsePriv(args[1])
+	cbnt.RandReader = rngReader{NewRng(UnN(args[8]))}
+	sa, ha, msg := cbnt.Algorithm(UnN(args[5])), cbnt.Algorithm(UnN(args[6])), exact(UnH(args[7]))
+	prior := cbntSigArg(args[9:14])
+	sigObs := func(g *cbnt.Signature) string {
+		return fmt.Sprintf("%x %x %x %x %x", uint16(g.SigScheme), g.Version, uint16(g.KeySize), uint16(g.HashAlg), len(g.Data))
 	}
-	return fmt.Sprintf("ok %x %x %x %x %s %x %x %x %x %x", ks.Version, uint16(ks.Key.KeyAlg), ks.Key.Version, uint16(ks.Key.KeySize), H(ks.Key.Data),
-		uint16(ks.Signature.SigScheme), ks.Signature.Version, uint16(ks.Signature.KeySize), uint16(ks.Signature.HashAlg), len(ks.Signature.Data))
+	ksObs := func(ks *cbnt.KeySignature) string {
+		return fmt.Sprintf("%x %x %x %x %s ", ks.Version, uint16(ks.Key.KeyAlg), ks.Key.Version, uint16(ks.Key.KeySize), H(ks.Key.Data)) + sigObs(&ks.Signature)
+	}
+	oldKey := cbnt.Key{KeyAlg: 0x55, Version: 0x55, KeySize: 0x5555, Data: []byte{1, 2, 3}}
+	switch args[0] {
+	case "sig":
+		g := prior
+		if err := g.SetSignature(sa, ha, priv, msg); err != nil {
+			return ErrClass(err, setSigErrTable)
+		}
+		return "ok " + sigObs(&g)
+	case "ks":
+		ks := cbnt.KeySignature{Version: 0x55, Key: oldKey, Signature: prior}
+		if err := ks.SetSignature(sa, ha, priv, msg); err != nil {
+			return ErrClass(err, setSigErrTable)
+		}
+		return "ok " + ksObs(&ks)
+	case "bpm":
+		m := cbntbootpolicy.Manifest{}
+		m.PMSE.KeySignature = cbnt.KeySignature{Version: 0x55, Key: oldKey, Signature: prior}
+		if err := m.PMSE.SetSignature(sa, ha, priv, msg); err != nil {
+			return ErrClass(err, setSigErrTable)
+		}
+		return "ok " + ksObs(&m.PMSE.KeySignature)
+	case "km":
+		m := cbntkey.Manifest{PubKeyHashAlg: cbnt.Algorithm(UnN(args[14]))}
+		m.KeyAndSignature = cbnt.KeySignature{Version: 0x55, Key: oldKey, Signature: prior}
+		if err := m.SetSignature(sa, ha, priv, msg); err != nil {
+			return ErrClass(err, setSigErrTable)
+		}
+		return "ok " + ksObs(&m.KeyAndSignature) + fmt.Sprintf(" %x", uint16(m.PubKeyHashAlg))
+	}
+	return "harness-error container"
 }
 
 // ---------- BPM key hash ----------
